@@ -46,6 +46,8 @@ type ar struct {
 	appendCodes map[string]int
 	// membership loops `for _, x := range S { if a == x { v = true; break } }` : S -> (lean Bool, "does S contain a")
 	containsAtoms map[string]string
+	// existence loops `for _, x := range S { if <cond> { return true } }`: "S|cond" (x renamed to _x) -> lean Bool
+	existsAtoms map[string]string
 	// receiver fields treated as variables of the translated function: source text ("l.isLocked") -> variable name
 	fieldVars map[string]string
 	// methods that may be spliced in where they are called as a statement (`l.unlock()`): call source -> body
@@ -344,6 +346,12 @@ func (a *ar) ret(r *ast.ReturnStmt, en env) string {
 			}
 		}
 	}
+	if a.fn == "boolFn" && len(r.Results) == 1 {
+		x, k := a.expr(r.Results[0], en)
+		if k == kB {
+			return x
+		}
+	}
 	if a.fn == "taintTime" && len(r.Results) == 2 {
 		// (*time.Time, error) -> (the time is nil, an error is returned, the Unix second when there is a time)
 		e := "false"
@@ -458,6 +466,18 @@ func (a *ar) block(ss []ast.Stmt, en env, ind string) string {
 		}
 		return a.block(rest, en, ind)
 	case *ast.RangeStmt:
+		// existence loop: for _, x := range S { if cond(x) { return true } }  ->  if <exists> then true else <rest>
+		if a.existsAtoms != nil && v.Value != nil && len(v.Body.List) == 1 {
+			if is, ok := v.Body.List[0].(*ast.IfStmt); ok && is.Init == nil && is.Else == nil && len(is.Body.List) == 1 {
+				if r, ok := is.Body.List[0].(*ast.ReturnStmt); ok && len(r.Results) == 1 && srcOf(r.Results[0]) == "true" {
+					x := srcOf(v.Value)
+					key := srcOf(v.X) + "|" + strings.ReplaceAll(srcOf(is.Cond), x+".", "_x.")
+					if at, ok := a.existsAtoms[key]; ok {
+						return ind + "if " + at + " = true then\n" + ind + "  true\n" + ind + "else\n" + a.block(rest, en, ind+"  ")
+					}
+				}
+			}
+		}
 		// membership loop: for _, x := range S { if a == x { v = true; break } }
 		if at, ok := a.containsAtoms[srcOf(v.X)]; ok && v.Value != nil && len(v.Body.List) == 1 {
 			if is, ok := v.Body.List[0].(*ast.IfStmt); ok && is.Init == nil && is.Else == nil && len(is.Body.List) == 2 {
